@@ -167,6 +167,9 @@ pub struct Proxy {
     pub dispatch_self: bool,
     /// native coins attached to the next calls (MessageInfo.funds)
     pub attach: Vec<Coin>,
+    /// build Execute calls with the client helper the repository ships (packages/cw1 `Cw1Contract::execute`)
+    /// and submit what it produced
+    pub via_helper: bool,
 }
 
 impl Proxy {
@@ -177,7 +180,7 @@ impl Proxy {
         let (fb, fs) = rng.far_future();
         w.advance(fb, fs);
         w.block.time = w.block.time.plus_nanos(rng.below(1_000_000_000));
-        Proxy { w, kind, dispatch_self: false, attach: vec![] }
+        Proxy { w, kind, dispatch_self: false, attach: vec![], via_helper: false }
     }
 
     pub fn instantiate(&mut self, admins: Vec<String>, mutable: bool) -> Res<Response> {
@@ -194,9 +197,22 @@ impl Proxy {
     }
 
     pub fn exec(&mut self, sender: &str, op: &Op) -> Res<Response> {
+        // the submitted list as the packaged client helper encodes it (identical to the hand-built message)
+        let helper_body: Option<cosmwasm_std::Binary> = match (self.via_helper, op) {
+            (true, Op::Execute { msgs }) => match cw1::Cw1Contract(self.w.contract.clone()).execute(msgs.clone()) {
+                Ok(CosmosMsg::Wasm(cosmwasm_std::WasmMsg::Execute { msg, .. })) => Some(msg),
+                Ok(_) => return Res::Err("Cw1Contract::execute did not produce a wasm execute message".into()),
+                Err(e) => return Res::Err(format!("Cw1Contract::execute failed: {e}")),
+            },
+            _ => None,
+        };
         match self.kind {
             Kind::Whitelist => {
                 let msg: WlMsg<Empty> = match op.clone() {
+                    Op::Execute { .. } if helper_body.is_some() => match cosmwasm_std::from_json(helper_body.as_ref().unwrap()) {
+                        Ok(m) => m,
+                        Err(e) => return Res::Err(format!("helper output not understood by the proxy: {e}")),
+                    },
                     Op::Execute { msgs } => WlMsg::Execute { msgs },
                     Op::Freeze => WlMsg::Freeze {},
                     Op::UpdateAdmins { admins } => WlMsg::UpdateAdmins { admins },
@@ -208,6 +224,10 @@ impl Proxy {
             }
             Kind::Subkeys => {
                 let msg: SubMsg<Empty> = match op.clone() {
+                    Op::Execute { .. } if helper_body.is_some() => match cosmwasm_std::from_json(helper_body.as_ref().unwrap()) {
+                        Ok(m) => m,
+                        Err(e) => return Res::Err(format!("helper output not understood by the proxy: {e}")),
+                    },
                     Op::Execute { msgs } => SubMsg::Execute { msgs },
                     Op::Freeze => SubMsg::Freeze {},
                     Op::UpdateAdmins { admins } => SubMsg::UpdateAdmins { admins },
